@@ -179,3 +179,29 @@ def bs_state():
     from vc2_conformance.pseudocode.state import State
 
     return State()
+
+
+import contextlib as _contextlib
+import sys as _sys
+
+# the harness itself formats / parses arbitrarily large integers (evidence, replay files, JSON
+# metadata read back): lift the interpreter's limit for the harness ...
+HARNESS_INT_LIMIT = 0
+if hasattr(_sys, "set_int_max_str_digits"):
+    _sys.set_int_max_str_digits(HARNESS_INT_LIMIT)
+
+
+@_contextlib.contextmanager
+def fresh_process_int_limit():
+    """Run a command's main() as a fresh interpreter would: with CPython's default limit on
+    int <-> str conversion (4300 digits) in force on entry, whatever earlier in-process calls
+    did to this process-wide setting.  The harness's own setting is restored afterwards."""
+    if not hasattr(_sys, "set_int_max_str_digits"):
+        yield
+        return
+    old = _sys.get_int_max_str_digits()
+    _sys.set_int_max_str_digits(4300)
+    try:
+        yield
+    finally:
+        _sys.set_int_max_str_digits(old)
